@@ -330,6 +330,15 @@ class Check:
             ax = re.findall(r"(?m)^Axioms:\s*\n((?:.+\n)+)", log)
             if ax:
                 self.notes["axioms_reported"] = ax
+            # thorough tier: re-check the compiled closure of the Props module(s) with the independent checker
+            if self.tier == "thorough" and not os.environ.get("VERIF_NO_COQCHK"):
+                mods = ["Goom." + t[:-3].replace("/", ".") for t in targets if t.endswith(".vo")]
+                with Lock("coq"):
+                    rc, out = sh(["coqchk", "-silent", "-o", "-R", COQ, "Goom"] + mods, timeout=3600)
+                m = re.search(r"\* Axioms:\s*(.*?)\n\s*\n", out, re.S)
+                self.notes["coqchk"] = {"modules": mods, "exit": rc, "axioms": (m.group(1).strip() if m else "?")}
+                if rc != 0 or not m or m.group(1).strip() != "<none>":
+                    self.obligation_broken("coqchk " + " ".join(mods), out[-1500:])
         else:
             self.obligation_broken(label or (failed or "proof"), log)
         return ok, failed, log
